@@ -74,7 +74,9 @@ struct Ctx<'a> {
     /// 0 = parameters handed to the loop directly; e > 0: resolved by the production `new_for_session_apis` from a
     /// user-configured statement + execution profile. Bits of e-1: 1 = consistency set on the statement (else only in the
     /// profile), 2 = retry policy set on the statement (else only in the profile), 4 = Batch instead of Statement,
-    /// 8 = the profile is attached to the statement (the session default profile is a decoy).
+    /// 8 = the profile is attached to the statement (the session default profile is a decoy), 16 = the profiles also carry
+    /// a speculative execution policy (max 1; it may only change WHEN things happen, never what is sent for these scripts:
+    /// attempts complete at once, so a second execution can only find the plan exhausted).
     entry: usize,
 }
 
@@ -177,12 +179,16 @@ fn run_case(cx: &Ctx, script: &[usize]) -> Obs {
         let decoy_cl = if cx.cl0 == Cl::All { Cl::Any } else { Cl::All };
         let decoy_policy: Arc<dyn scylla::policies::retry::RetryPolicy> = Arc::new(DecoyPolicy(decoy_used.clone()));
         // the profile that must be used: carries whatever is not set on the statement (and decoys for what is)
+        let spec: Option<Arc<dyn scylla::policies::speculative_execution::SpeculativeExecutionPolicy>> = (bits & 16 != 0).then(|| {
+            Arc::new(scylla::policies::speculative_execution::SimpleSpeculativeExecutionPolicy { max_retry_count: 1, retry_interval: std::time::Duration::from_millis(100) }) as Arc<dyn scylla::policies::speculative_execution::SpeculativeExecutionPolicy>
+        });
         let profile = ExecutionProfile::builder()
+            .speculative_execution_policy(spec.clone())
             .consistency(retrysym::cons_of(if bits & 1 != 0 { decoy_cl } else { cx.cl0 }))
             .retry_policy(if bits & 2 != 0 { decoy_policy.clone() } else { rec.clone() })
             .build()
             .into_handle();
-        let decoy_profile = ExecutionProfile::builder().consistency(retrysym::cons_of(decoy_cl)).retry_policy(decoy_policy.clone()).build().into_handle();
+        let decoy_profile = ExecutionProfile::builder().speculative_execution_policy(spec.clone()).consistency(retrysym::cons_of(decoy_cl)).retry_policy(decoy_policy.clone()).build().into_handle();
         let (own, default_profile) = if bits & 8 != 0 { (Some(profile), decoy_profile) } else { (None, profile) };
         let stmt = if bits & 4 != 0 {
             let mut b = scylla::statement::batch::Batch::default();
@@ -491,11 +497,17 @@ fn main() {
                             }
                         }
                         // the same trees with the parameters resolved from a user-configured Statement / Batch + execution
-                        // profile (16 ways of placing consistency / retry policy / profile): plans of 1..2 targets, all with
+                        // profile (32 ways of placing consistency / retry policy / profile / a speculative policy): plans of 1..2 targets, all with
                         // a connection, two consistencies
                         if (1..=2).contains(&p) && mask == 0 && (cl0 == Cl::Quorum || cl0 == Cl::LocalSerial) {
                             let n_entry = 1 + if mode == Mode::Scripted { SCRIPTED.len() } else { syms_class.len() };
-                            for entry in 1..=16usize {
+                            for entry in 1..=32usize {
+                                // a speculative policy in the profile is only combined with NON-idempotent statements here (it must
+                                // then be ignored altogether); for idempotent ones speculative executions legitimately add attempts
+                                // after an ignorable failure - that composition is C13's (leg exec-spec)
+                                if (entry - 1) & 16 != 0 && idem {
+                                    continue;
+                                }
                                 for s in 0..n_entry {
                                     items.push((mode, idem, cl0, no_conn.clone(), 0, entry, s, usize::MAX));
                                 }
